@@ -1930,6 +1930,11 @@ class Walker:
                     v = self.eng.static_term(ci_e.mod, ci_e.enum_members()[b[2]])
                     outs.append((s, "val", v if v is not None else ("attr", b, "value")))
                     continue
+                if ci_e is not None:
+                    iv = self._enum_init_attr(ci_e, b[2], e.attr)
+                    if iv is not None:
+                        outs.append((s, "val", iv))
+                        continue
                 m_e = self.prog.find_method(b[1], e.attr) if ci_e is not None else None
                 if m_e is not None and m_e[0] == "repo" and any(ast.unparse(d) in ("property", "functools.cached_property", "cached_property") for d in m_e[1].node.decorator_list):
                     from .calls import apply_repo
@@ -1996,6 +2001,40 @@ class Walker:
                 self.rz(outs, s, e, "AttributeError", "attribute %s on a value of unknown type" % e.attr, [("nohasattr", b, e.attr)])
             outs.append((s, "val", ("attr", b, e.attr)))
         return outs
+
+    def _enum_init_attr(self, ci, member, attr):
+        """an Enum whose __init__(self, a, b) stores the unpacked member value in attributes
+        (`self.suffix = a` as a top-level statement, assigned once): the attribute of a member"""
+        init = ci.methods.get("__init__")
+        if init is None:
+            return None
+        params = [a.arg for a in init.node.args.args][1:]
+        if init.node.args.vararg or init.node.args.kwarg or init.node.args.kwonlyargs or init.node.args.defaults:
+            return None
+        hits = []
+        for st_ in ast.walk(init.node):
+            if isinstance(st_, (ast.Assign, ast.AugAssign, ast.AnnAssign)):
+                tgts = st_.targets if isinstance(st_, ast.Assign) else [st_.target]
+                for tg in tgts:
+                    for x in ast.walk(tg):
+                        if isinstance(x, ast.Attribute) and x.attr == attr and isinstance(x.value, ast.Name) and x.value.id == init.node.args.args[0].arg:
+                            hits.append(st_)
+        if len(hits) != 1 or hits[0] not in init.node.body or not isinstance(hits[0], ast.Assign) or len(hits[0].targets) != 1 or not isinstance(hits[0].targets[0], ast.Attribute):
+            return None
+        val = hits[0].value
+        if not (isinstance(val, ast.Name) and val.id in params):
+            return None
+        # the parameter must not be rebound before the store
+        for st_ in init.node.body[: init.node.body.index(hits[0])]:
+            if any(isinstance(x, ast.Name) and x.id == val.id and isinstance(x.ctx, ast.Store) for x in ast.walk(st_)):
+                return None
+        mv = self.eng.static_term(ci.mod, ci.enum_members()[member])
+        if mv is None:
+            return None
+        items = mv[2] if is_lit(mv, "tuple") else (tuple(C(x) for x in mv[2]) if is_const(mv) and isinstance(mv[2], tuple) else (mv,))
+        if len(items) != len(params):
+            return None
+        return items[params.index(val.id)]
 
     def _class_constant(self, ci, name):
         """value of a class-level constant `NAME = <static expression>` (no annotation-only fields)"""
